@@ -576,6 +576,13 @@ class C03(Prop):
           run_dict_op(pg, target, pyop, is_object)
       except (TypeError, ValueError, KeyError, IndexError) as e:
         err = type(e).__name__
+      # every symbolic member still knows its place (parent and key), also after a rejected write
+      att = True
+      for k, v in target.sym_items():
+        if isinstance(v, pg.Symbolic):
+          if v.sym_parent is not target or v.sym_path.key != k:
+            att = False
+      out.setdefault('attached', []).append(att)
       # derived state is queried between the steps, as a user program would (and memoised by pyglove)
       out.setdefault('derived', []).append([bool(target.is_partial), len(target.sym_missing())])
       m['steps'].append({'err': err, 'items': content(target), 'conforms': conforms(target, True),
@@ -623,9 +630,13 @@ class C03(Prop):
     prev = m['construct']
     ops = case['ops'] if kind == 'list' else [o for o, _ in case['ops']]
     scopes = [None] * len(ops) if kind == 'list' else [s for _, s in case['ops']]
-    for op, scope, s in zip(ops, scopes, m['steps']):
+    for i, (op, scope, s) in enumerate(zip(ops, scopes, m['steps'])):
       if scope:
         partial_allowed = True
+      if kind != 'list' and not out.get('attached', [True] * len(ops))[i]:
+        return {'signature': 'member-detached:%s:%s' % (kind, op[0]),
+                'what': 'after %s (%s) a symbolic member of the %s no longer has it as parent / its key as path' % (
+                    json.dumps(op), s['err'] or 'ok', kind)}
       if not s['conforms'] and 'frozen-value-differs' in out.get('why', []):
         return {'signature': 'frozen-value-differs:%s:%s' % (kind, op[0]),
                 'what': 'after %s a frozen member of the %s does not hold its frozen value: %s (spec %s)' % (
